@@ -34,6 +34,12 @@ HeaderOK(res, doc, hk, hn) ==
           /\ got = keep
           /\ Len(res.cells) = Cardinality(got)
 
+\* every generated workbook has, besides S1 (the varying document) and S2, a sheet "s1" whose name
+\* differs from "S1" only by case: names are exact strings, so it is a different sheet with its own
+\* content, and a name that differs from every sheet by case only ("s2") is an unknown sheet
+LowerDoc == {<<0, 0, 77>>}
+UnknownSheets == {"nope", "s2"}
+
 \* range-like calls are the same question asked through different paths
 IsRangeLike(call) == call \in {"range", "range_ref", "range_at"}
 NormCall(call, hdr) ==
